@@ -15,7 +15,7 @@ RULE = ('trees = everything the three parsers accept from the corpus + generated
         'Snowflake} x {fallback on, off} x {get_string, get_exec_params}; non-trivial = tree SQLAlchemy cannot render, or a CREATE TABLE; '
         'distinct by (statement text, dialect name, flags)')
 ASSUMPTIONS = ['"supported dialect names" are the keys of the renderer\'s own table', 'tree mutation is judged on the reflective struct, not on to_tree()']
-BUDGET = {'quick': (8, 80), 'thorough': (16, 500)}
+BUDGET = {'quick': (16, 240), 'thorough': (16, 1800)}
 NAMES = ['mysql', 'postgresql', 'postgres', 'sqlite', 'mssql', 'oracle', 'Snowflake']
 
 EXTRA = [
